@@ -7,6 +7,44 @@ import (
 	"github.com/EliCDavis/vector/vector4"
 )
 
+// primitiveStride is the number of consecutive indices that make up one
+// primitive of the topology. Points, and strips / loops whose vertices are
+// chained rather than grouped, are filtered vertex by vertex.
+func primitiveStride(topo modeling.Topology) int {
+	switch topo {
+	case modeling.TriangleTopology, modeling.QuadTopology, modeling.LineTopology:
+		return topo.IndexSize()
+	}
+	return 1
+}
+
+// filterPrimitives keeps, in their original order, the primitives whose
+// vertices all pass the filter, and drops the vertices no longer referenced.
+func filterPrimitives(m modeling.Mesh, keepVertex []bool) modeling.Mesh {
+	indices := m.Indices()
+	stride := primitiveStride(m.Topology())
+	finalIndices := make([]int, 0)
+	for start := 0; start+stride <= indices.Len(); start += stride {
+		keepPrimitive := true
+		for i := start; i < start+stride; i++ {
+			if !keepVertex[indices.At(i)] {
+				keepPrimitive = false
+				break
+			}
+		}
+
+		if !keepPrimitive {
+			continue
+		}
+
+		for i := start; i < start+stride; i++ {
+			finalIndices = append(finalIndices, indices.At(i))
+		}
+	}
+
+	return RemovedUnreferencedVertices(m.SetIndices(finalIndices))
+}
+
 type FilterFloat1Transformer struct {
 	Attribute string
 	Filter    func(v float64) bool
@@ -24,23 +62,15 @@ func FilterFloat1(m modeling.Mesh, attribute string, filter func(v float64) bool
 	check(RequireV1Attribute(m, attribute))
 
 	vertices := m.Float1Attribute(attribute)
-	verticeToKeep := make(map[int]struct{}, 0)
+	verticeToKeep := make([]bool, vertices.Len())
 
 	for i := 0; i < vertices.Len(); i++ {
 		if filter(vertices.At(i)) {
-			verticeToKeep[i] = struct{}{}
+			verticeToKeep[i] = true
 		}
 	}
 
-	indices := m.Indices()
-	finalIndices := make([]int, 0)
-	for i := 0; i < indices.Len(); i++ {
-		if _, ok := verticeToKeep[indices.At(i)]; ok {
-			finalIndices = append(finalIndices, i)
-		}
-	}
-
-	return RemovedUnreferencedVertices(m.SetIndices(finalIndices))
+	return filterPrimitives(m, verticeToKeep)
 }
 
 // FLOAT 2 ====================================================================
@@ -62,23 +92,15 @@ func FilterFloat2(m modeling.Mesh, attribute string, filter func(v vector2.Float
 	check(RequireV2Attribute(m, attribute))
 
 	vertices := m.Float2Attribute(attribute)
-	verticeToKeep := make(map[int]struct{}, 0)
+	verticeToKeep := make([]bool, vertices.Len())
 
 	for i := 0; i < vertices.Len(); i++ {
 		if filter(vertices.At(i)) {
-			verticeToKeep[i] = struct{}{}
+			verticeToKeep[i] = true
 		}
 	}
 
-	indices := m.Indices()
-	finalIndices := make([]int, 0)
-	for i := 0; i < indices.Len(); i++ {
-		if _, ok := verticeToKeep[indices.At(i)]; ok {
-			finalIndices = append(finalIndices, i)
-		}
-	}
-
-	return RemovedUnreferencedVertices(m.SetIndices(finalIndices))
+	return filterPrimitives(m, verticeToKeep)
 }
 
 // FLOAT 3 ====================================================================
@@ -108,15 +130,7 @@ func FilterFloat3(m modeling.Mesh, attribute string, filter func(v vector3.Float
 		}
 	}
 
-	indices := m.Indices()
-	finalIndices := make([]int, 0)
-	for i := 0; i < indices.Len(); i++ {
-		if verticeToKeep[indices.At(i)] {
-			finalIndices = append(finalIndices, i)
-		}
-	}
-
-	return RemovedUnreferencedVertices(m.SetIndices(finalIndices))
+	return filterPrimitives(m, verticeToKeep)
 }
 
 // FLOAT 4 ====================================================================
@@ -138,21 +152,13 @@ func FilterFloat4(m modeling.Mesh, attribute string, filter func(v vector4.Float
 	check(RequireV4Attribute(m, attribute))
 
 	vertices := m.Float4Attribute(attribute)
-	verticeToKeep := make(map[int]struct{}, 0)
+	verticeToKeep := make([]bool, vertices.Len())
 
 	for i := 0; i < vertices.Len(); i++ {
 		if filter(vertices.At(i)) {
-			verticeToKeep[i] = struct{}{}
+			verticeToKeep[i] = true
 		}
 	}
 
-	indices := m.Indices()
-	finalIndices := make([]int, 0)
-	for i := 0; i < indices.Len(); i++ {
-		if _, ok := verticeToKeep[indices.At(i)]; ok {
-			finalIndices = append(finalIndices, i)
-		}
-	}
-
-	return RemovedUnreferencedVertices(m.SetIndices(finalIndices))
+	return filterPrimitives(m, verticeToKeep)
 }
